@@ -206,7 +206,9 @@ class VariableVisitor(ast.NodeVisitor):
         from guppylang_internals.cfg.analysis import LivenessAnalysis
 
         stats = {bb: bb.compute_variable_stats() for bb in node.cfg.bbs}
-        live = LivenessAnalysis(stats).run(node.cfg.bbs)
+        # Unreachable code is included, like in the analysis that checks the nested body
+        # later on, so that both agree on which outer variables the body needs
+        live = LivenessAnalysis(stats, include_unreachable=True).run(node.cfg.bbs)
 
         # Only store used *external* variables: things defined in the current BB, as
         # well as the function name and argument names should not be included
@@ -232,7 +234,7 @@ class VariableVisitor(ast.NodeVisitor):
         from guppylang_internals.cfg.analysis import LivenessAnalysis
 
         stats = {bb: bb.compute_variable_stats() for bb in node.cfg.bbs}
-        live = LivenessAnalysis(stats).run(node.cfg.bbs)
+        live = LivenessAnalysis(stats, include_unreachable=True).run(node.cfg.bbs)
         assigned_before_in_bb = self.stats.assigned.keys()
         self.stats.used |= {
             x: using_bb.vars.used[x]
